@@ -152,7 +152,7 @@ LiveBefore(cfg, s, reads) ==
      ELSE FlagAt(s1, "C02:dynamic:read-of-register-reported-dead:"
                    \o (IF EcallNumberUnknown(cfg, s.pc) /\ badreads \subseteq ArgRegs
                           THEN "argument-of-an-ecall-whose-number-the-analysis-does-not-know"
-                       ELSE IF JumpsToFunctionEntry(cfg) THEN "program-jumps-to-a-function-entry"
+                       ELSE IF JumpsToFunctionEntry(cfg) \/ EntryReachedWithoutCall(cfg) THEN "program-jumps-to-a-function-entry"
                        ELSE "ordinary-program"),
                  badreads)
 \* `written` = registers written by instructions of the current frame (since it was entered)
